@@ -10,11 +10,19 @@ pub mod c06;
 pub mod c07;
 pub mod c09;
 pub mod c10;
+pub mod c12;
+pub mod c13;
+pub mod streams;
 pub mod c19;
 pub mod c20;
+pub mod c21;
+pub mod c22;
+pub mod c23;
 pub mod c24;
 pub mod c25;
 pub mod c26;
+pub mod c27;
+pub mod c28;
 
 use crate::report::{Cfg, Report};
 
@@ -29,11 +37,18 @@ pub fn dispatch(prop: &str, cfg: &Cfg) -> Option<Report> {
         "C07" => c07::run(cfg),
         "C09" => c09::run(cfg),
         "C10" => c10::run(cfg),
+        "C12" => c12::run(cfg),
+        "C13" => c13::run(cfg),
         "C19" => c19::run(cfg),
         "C20" => c20::run(cfg),
+        "C21" => c21::run(cfg),
+        "C22" => c22::run(cfg),
+        "C23" => c23::run(cfg),
         "C24" => c24::run(cfg),
         "C25" => c25::run(cfg),
         "C26" => c26::run(cfg),
+        "C27" => c27::run(cfg),
+        "C28" => c28::run(cfg),
         _ => return None,
     })
 }
